@@ -122,7 +122,7 @@ fn run_case(sc: &Value, rng: &mut SmallRng) -> Vec<Value> {
                     "B" => sut::UUID_B,
                     _ => sut::UUID_X,
                 };
-                let ck = rv::cmd_key(uuid).unwrap();
+                let ck = if sk == "shape" { [0u8; 16] } else { rv::cmd_key(uuid).unwrap() };
                 let req = rv::VmessReq { iv: rng.random(), key: rng.random(), resp_auth: rng.random(), option: 0x1d, security: sec, cmd: 1, addr: addr(), header_padding: 3 };
                 let aid = rv::auth_id(&ck, now as i64, rng.random(), false);
                 let mut wire = rv::seal_request_header(&ck, &aid, &rng.random(), &req.plain_header());
@@ -132,6 +132,18 @@ fn run_case(sc: &Value, rng: &mut SmallRng) -> Vec<Value> {
                 }
                 if truncated {
                     wire.truncate(30);
+                }
+                if sk == "shape" {
+                    // against a server whose user table has an entry it cannot read as a UUID (empty, or some text): if such a
+                    // server runs at all, the all-zero key must not be a registered one
+                    for bad_id in ["", "disabled", "00000000"] {
+                        let got = match sv::listener(&sut::vmess_server_cfg(&[sut::UUID_A, bad_id])).and_then(|l| l.new_codec()) {
+                            Ok(mut codec) => sut::server_decode(&mut codec, &mut BytesMut::from(&wire[..])),
+                            Err(e) => Got::Err(format!("the entry does not start: {e}")),
+                        };
+                        out.push(json!({"variant": format!("vmess sec {sec}, user entry {bad_id:?}"), "emit": emitted(&got), "user": "-", "reply": "none", "detail": brief(&got)}));
+                    }
+                    continue;
                 }
                 let l = if at == "here" {
                     sv::listener(&sut::vmess_server_cfg(&[sut::UUID_A, sut::UUID_B])).unwrap()
